@@ -37,6 +37,10 @@ func main() {
 				r.MaxPaths, _ = strconv.Atoi(kv[1])
 			case "nomerge":
 				r.MergeOff = true
+			case "maporder":
+				r.MapOrder = kv[1]
+			case "pooldrain":
+				r.PoolDrain = true
 			case "fuel":
 				f, _ := strconv.Atoi(kv[1])
 				r.Fuel = int64(f)
